@@ -88,6 +88,13 @@ def handle_results(prop, results, runner, scratch, crate_dir, harness_file_of, o
             else:
                 outcome.inconclusive.append("%s: same unreproduced counterexample as %s" % (h.name, first["harness"]))
             continue
+        if key in known_keys:
+            # a listed finding: report it as such; it was replayed when it was recorded
+            replayed_keys[key] = {"harness": h.name, "replay": None, "kind": "known"}
+            rec["counterexample"] = {"key": key, "failed": descs, "known_finding": True}
+            outcome.known.append({"key": key, "what": known_keys[key]["what"]})
+            log("KNOWN-FINDING: property=%s %s [%s]" % (prop, known_keys[key]["what"], key))
+            continue
         test_text, cex_run = runner.counterexample(h)
         replay_info = {"property": prop, "harness": h.name, "bounds": h.bounds, "key": key,
                        "failed_checks": p["failed_checks"][:10], "playback_test": test_text}
